@@ -39,7 +39,32 @@ var bigTypes = map[string]reflect.Type{
 	"hashmapauge/32/32": reflect.TypeOf(tlb.HashmapAugE[tlb.Uint32, tlb.Uint32, tlb.Uint32]{}),
 	"bintree/0/32":      reflect.TypeOf(tlb.BinTree[tlb.Uint32]{}),
 	"snake/0/0":         reflect.TypeOf(tlb.SnakeData{}),
+	"chunked/32/0":      reflect.TypeOf(tlb.ChunkedData{}),
 	"vmstack/0/0":       reflect.TypeOf(tlb.VmStack{}),
+}
+
+// typeByName resolves the printed name of one of the generic instantiations above.
+func typeByName(name string) (reflect.Type, bool) {
+	for _, t := range bigTypes {
+		if strings.ReplaceAll(t.String(), "github.com/tonkeeper/tongo/", "") == name {
+			return t, true
+		}
+	}
+	return nil, false
+}
+
+// smallDecodeOnly: small valid encodings, laid out by the driver from the TL-B definitions, of the types the library
+// can decode but not encode (BinTree, non-empty HashmapAug(E), ChunkedData): seeds for the mutation classes, since
+// nothing can be recorded from an encoder that does not exist.
+func smallDecodeOnly(seed int64) []bigRecipe {
+	var out []bigRecipe
+	for i, n := range []int{1, 2, 3, 5} {
+		out = append(out,
+			bigRecipe{Kind: "bintree", Val: 32, N: n, Seed: seed + int64(i)},
+			bigRecipe{Kind: "hashmapauge", Key: 32, Val: 32, N: n, Seed: seed + int64(i)},
+			bigRecipe{Kind: "chunked", Key: 32, N: n, Seed: seed + int64(i)})
+	}
+	return out
 }
 
 func (r bigRecipe) typeKey() string { return fmt.Sprintf("%s/%d/%d", r.Kind, r.Key, r.Val) }
@@ -71,6 +96,10 @@ func bitLen(n int) int {
 //
 // aug != nil adds the extra of HashmapAug (ahmn_leaf extra:Y value:X / ahmn_fork left right extra:Y).
 func hashmapTree(ks []string, lo, hi, pos int, val func(i int) string, aug func() string) *node {
+	return hashmapTreeR(ks, lo, hi, pos, func(i int) (string, []*node) { return val(i), nil }, aug)
+}
+
+func hashmapTreeR(ks []string, lo, hi, pos int, val func(i int) (string, []*node), aug func() string) *node {
 	n := len(ks[lo])
 	m := n - pos
 	l := 0
@@ -82,11 +111,13 @@ func hashmapTree(ks []string, lo, hi, pos int, val func(i int) string, aug func(
 		if aug != nil {
 			c.bits += aug()
 		}
-		c.bits += val(lo)
+		vb, vr := val(lo)
+		c.bits += vb
+		c.refs = vr
 		return c
 	}
 	mid := lo + sort.Search(hi-lo, func(i int) bool { return ks[lo+i][pos+l] == '1' })
-	c.refs = []*node{hashmapTree(ks, lo, mid, pos+l+1, val, aug), hashmapTree(ks, mid, hi, pos+l+1, val, aug)}
+	c.refs = []*node{hashmapTreeR(ks, lo, mid, pos+l+1, val, aug), hashmapTreeR(ks, mid, hi, pos+l+1, val, aug)}
 	if aug != nil {
 		c.bits += aug()
 	}
@@ -127,6 +158,23 @@ func (r bigRecipe) build() (*node, error) {
 		default:
 			root = &node{bits: "1" + aug(), refs: []*node{t}}
 		}
+	case "chunked": // chunked_data#_ data:(HashMapE 32 ^(SnakeData ~0)): N chunks of 1..3 cells
+		ks := make([]string, r.N)
+		for i := range ks {
+			ks[i] = bitsOf(uint64(i), 32)
+		}
+		t := hashmapTreeR(ks, 0, len(ks), 0, func(i int) (string, []*node) {
+			var cur *node
+			for k := 1 + rng.Intn(3); k > 0; k-- {
+				c := &node{bits: randBitsUniform(rng, 8*(1+rng.Intn(100)))}
+				if cur != nil {
+					c.refs = []*node{cur}
+				}
+				cur = c
+			}
+			return "", []*node{cur}
+		}, nil)
+		root = &node{bits: "1", refs: []*node{t}}
 	case "bintree": // bt_leaf$0 leaf:X / bt_fork$1 left:^ right:^ ; N leaves (a power of two)
 		var mk func(n int) *node
 		mk = func(n int) *node {
